@@ -320,7 +320,8 @@ pub fn partitions_match(a: &[String], b: &[String]) -> bool {
     false
 }
 
-const NAMES: [&str; 9] = ["", "a", "ab", "a*", "?b", "[ab]", "[!a]b", "b", "abc"];
+// ("a+", "aa": '+' is not a fnmatch metacharacter - added after the code-reading audit; ".", "a.c"/"abc": nor is '.')
+const NAMES: [&str; 13] = ["", "a", "ab", "a*", "?b", "[ab]", "[!a]b", "b", "abc", "a+", "aa", "a.c", "a(b"];
 
 fn name_lists() -> Vec<Vec<String>> {
     let mut v: Vec<Vec<String>> = vec![vec![]];
@@ -409,7 +410,9 @@ async fn e2e(ctx: Ctx, mode: usize) {
     let rs = r.get_subscription_matched_status().await.unwrap();
     let wi: Vec<Vec<i32>> = notified.lock().unwrap().clone();
     ctx.obs(format!("{label}: writer matched {} reader matched {} offered-incompatible notifications {:?}", ws.current_count, rs.current_count, wi));
-    let class = if mode == 0 { label.split('/').next().unwrap().to_string() } else { format!("partition/expect={expect_match}") };
+    // (names with a '+' form their own class: the implementation's regex extension is a listed known finding and must not
+    // hide other partition mismatches behind the same signature)
+    let class = if mode == 0 { label.split('/').next().unwrap().to_string() } else if label.contains('+') { format!("partition-with-plus/expect={expect_match}") } else { format!("partition/expect={expect_match}") };
     if (ws.current_count == 1) != expect_match {
         ctx.violation(format!("e2e/writer/{}/{class}", if expect_match { "not-matched" } else { "matched" }), format!("{label}: writer current_count={} but the pair is {}", ws.current_count, if expect_match { "compatible" } else { "incompatible" }));
     }
